@@ -51,3 +51,27 @@ package ice
 //@   ensures reject-bad-integrity: !a.gIntegOK ==> !result && unchangedExcept("H_ice.Agent.gIntegOK")
 //@   ensures reject-unknown-remote: remoteCandidate == nil ==> !result && unchangedExcept("H_ice.Agent.gIntegOK")
 //@   ensures accept-needs-integrity: result ==> a.gIntegOK && remoteCandidate != nil
+
+// The dispatcher: messages that cannot be handled change nothing; the liveness
+// timestamp of the remote is refreshed only after the class-specific handler
+// accepted the message, and only for the remote candidate it accepted; a Binding
+// indication reaches no handler at all.
+//@ func (*Agent).handleInbound
+//@   props C02
+//@   requires a != nil
+//@   ghostvar handled bool = false
+//@   ghostvar accepted bool = false
+//@   site call handleInboundResponse#1 assert responses-only-for-success-responses: msg.Type.Class == 2 && msg.Type.Method == 1 && arg4 == msg && arg2 == local
+//@   site call handleInboundResponse#1 ghost handled := true
+//@   site call handleInboundResponse#1 ghost accepted := result
+//@   site call handleInboundRequest#1 assert requests-only-for-requests: msg.Type.Class == 0 && msg.Type.Method == 1 && arg4 == msg && arg2 == local
+//@   site call handleInboundRequest#1 ghost handled := true
+//@   site call handleInboundRequest#1 ghost accepted := result1
+//@   site call seen#1 assert liveness-refreshed-only-for-an-accepted-message-or-an-indication: (handled ==> accepted) && (!handled ==> msg.Type.Class == 1) && recv == remoteCandidate && arg0 == false
+//@   ensures unhandled-messages-change-nothing: msg == nil || local == nil || !(old(msg.Type.Method) == 1 && (old(msg.Type.Class) == 0 || old(msg.Type.Class) == 1 || old(msg.Type.Class) == 2)) ==> unchangedExcept()
+
+//@ func (*Agent).findRemoteCandidate
+//@   props C02 C06
+//@   modifies nothing
+//@   loop 1 invariant index-in-range: rangeindex + 1 <= len(set)
+//@   ensures only-a-known-remote-of-that-network-type: result != nil ==> exists i int :: 0 <= i && i < len(a.remoteCandidates[networkType]) && a.remoteCandidates[networkType][i] == result
